@@ -787,7 +787,7 @@ def run_check(prop, spec, tier, seed, scratch, workdir):
             for f in (r.get("extract") or {}).get("functions", []):
                 if f.get("mode") != "verify":
                     continue
-                nm = f["select"].replace("fn ", "")
+                nm = f["select"].replace("fn ", "").replace("impl ", "").replace(" for ", "_for_").replace(" ", "")
                 if probes.find_probe(nm):
                     ok, info = probes.run_probe(prop, dict(function=nm), scratch, seed)
                     if ok:
